@@ -126,6 +126,12 @@ impl PathSliceList {
         model: Option<bool>,
     ) -> Result<(), TmplError> {
         let br = |w: &mut JsExprWriter<W>| -> Result<(), TmplError> {
+            if let Some(PathSlice::ScopeIndex(i)) = self.0.first() {
+                if let ScopeVarLvaluePath::Var { var_name, .. } = &scopes[*i].lvalue_path {
+                    // (the item of a list that has no path at run time has no path either)
+                    write!(w, "{}&&", var_name)?;
+                }
+            }
             write!(w, "[")?;
             let mut write_items = || -> Result<bool, TmplError> {
                 let mut iter = self.0.iter();
@@ -199,18 +205,34 @@ impl PathSliceList {
                 write!(w, r#":"#)?;
                 false_br.write_lvalue_path(w, scopes, model)?;
             } else {
+                let mut branch_with_tail = |w: &mut JsExprWriter<W>,
+                                            branch: &PathAnalysisState|
+                 -> Result<(), TmplError> {
+                    // the path of a nested conditional (or of an item of such a list) may be `null` at run time
+                    let nullable = match branch {
+                        PathAnalysisState::InPath(psl) => matches!(
+                            psl.0.first(),
+                            Some(PathSlice::Condition(..)) | Some(PathSlice::ScopeIndex(_))
+                        ),
+                        _ => false,
+                    };
+                    if nullable {
+                        write!(w, r#"((_0)=>_0&&_0.concat("#)?;
+                        br(w)?;
+                        write!(w, r#"))("#)?;
+                        branch.write_lvalue_path(w, scopes, model)?;
+                        write!(w, r#")"#)?;
+                    } else if branch.write_lvalue_path(w, scopes, model)?.is_some() {
+                        write!(w, r#".concat("#)?;
+                        br(w)?;
+                        write!(w, r#")"#)?;
+                    }
+                    Ok(())
+                };
                 write!(w, r#"{}?"#, cond)?;
-                if true_br.write_lvalue_path(w, scopes, model)?.is_some() {
-                    write!(w, r#".concat("#)?;
-                    br(w)?;
-                    write!(w, r#")"#)?;
-                }
+                branch_with_tail(w, true_br)?;
                 write!(w, r#":"#)?;
-                if false_br.write_lvalue_path(w, scopes, model)?.is_some() {
-                    write!(w, r#".concat("#)?;
-                    br(w)?;
-                    write!(w, r#")"#)?;
-                }
+                branch_with_tail(w, false_br)?;
             }
         } else {
             br(w)?;
